@@ -21,9 +21,12 @@ FirstN(seq, n) == {seq[j] : j \in 1..(IF n < Len(seq) THEN n ELSE Len(seq))}
 Base(nw) == Catalogue(nw, Cen(nw), EpsC(nw), RGEN, AMPS, MAXHOPS, {{}})
 (* spin-down partners: the R-set may be smaller, larger (an R-vector stored with zeros, a hop in another direction) or equal *)
 Down(nw) == Catalogue(nw, Cen(nw), IF nw = 1 THEN {<<0>>} ELSE {<<0, 1>>}, RGEN, AMPS, MAXHOPS2, {{}, {<<1, 0, 0>>}, {<<1, 0, 0>>, <<0, 1, 0>>}})
+(* without SOC terms: every pair; with SOC terms (on R-vectors of their own): spin-up with x-hops, spin-down on the same or on a larger R-set *)
 Socs(nw) == {MakeSOC(u, d) : u \in Base(nw), d \in Down(nw)}
-             \cup {SetSOC(MakeSOC(u, d), sd.rsS, sd.D, PauliRot(1, 1), 1) :
-                      u \in {b \in Base(nw) : Cardinality(b.rs) = 3}, d \in {b \in Down(nw) : Cardinality(b.rs) = 5}, sd \in SocCatalogue(nw, MAXSOC)}
+             \cup UNION {{SetSOC(MakeSOC(u, d), sd.rsS, sd.D, PauliRot(1, 1), 1) :
+                            d \in {b \in Down(nw) : b.rs = u.rs \/ Cardinality(b.rs) = 5},
+                            sd \in {x \in SocCatalogue(nw, MAXSOC) : x.rsS # {Z3}}} :
+                         u \in {b \in Base(nw) : b.rs = {Z3, <<1, 0, 0>>, <<-1, 0, 0>>}}}
 Systems(kd) == IF kd = "SOC" THEN UNION {Socs(nw) : nw \in NWS} ELSE UNION {Base(nw) : nw \in NWS}
 
 (* NKFFT, Kp_fullBZ (quarters), half cell size (quarters); all corner k-points are on the quarter grid *)
